@@ -194,13 +194,41 @@ def base_args(name: str, command: Any) -> list[str] | None:
         m = re.search(r"the following arguments are required: (.*)", err)
         progressed = False
         if m:
-            for tok in [t.strip() for t in m.group(1).split(",")]:
+            # choice sets are printed as "{a, b, c}": keep them together
+            toks = [t.strip() for t in re.split(r",\s*(?![^{]*\})", m.group(1))]
+            for tok in toks:
+                if tok.startswith("{"):
+                    args = args + [tok.strip("{}").split(",")[0].strip()]
+                    progressed = True
+                    continue
                 opt = tok.split("/")[-1].strip()
                 attr = opt.lstrip("-").replace("-", "_")
+                if not opt.startswith("-"):
+                    # positionals are reported by their (upper-case) metavar
+                    attr = next((a for a in fields if a.lower() == opt.lower()), attr.lower())
                 val = _dummy(attr, fields.get(attr))
-                if val is None or opt in args or (not opt.startswith("-") and val in args):
+                if val is None or (opt.startswith("-") and opt in args):
                     continue
                 args = args + ([opt, val] if opt.startswith("-") else [val])
+                progressed = True
+        elif "Exactly one of id or file is required" in err:
+            args = args + ["--file", "/tmp/vf-nonexistent-META.json"]
+            progressed = True
+        elif "No instructions were given" in err:
+            args = args + ["--start"]
+            progressed = True
+        elif "Exactly one of data or data-file is required" in err:
+            args = args + ["--data", "0102"]
+            progressed = True
+        elif ("ransport sche" in err) and TARGET in args:
+            # commands restricted to particular transports
+            alt = "can-raw://vcan0" if "can-raw" in err else "tcp://127.0.0.1:20162"
+            args = [alt if a == TARGET else a for a in args]
+            progressed = True
+        elif "argument --service" in err and "--service" in args:
+            i = args.index("--service")
+            if args[i + 1] != "0x23":
+                args[i + 1] = "0x23"
                 progressed = True
         else:
             m2 = re.findall(r"(?:argument|default of) ([\w-]+)", err)
@@ -214,6 +242,10 @@ def base_args(name: str, command: Any) -> list[str] | None:
 def _dummy(attr: str, f: Any) -> str | None:
     if attr == "target":
         return TARGET
+    if attr == "properties":
+        return "{}"
+    if attr == "sources":
+        return "1:1:1" if f is not None and "int, int, int" in repr(f.annotation) else "1:1"
     if f is None:
         return "1"
     ann = repr(f.annotation)
